@@ -11,7 +11,7 @@ from .numbering import finish
 
 
 def bench_opts(rng):
-    return gen.Opts(max_files=2, max_structs=4, max_ifaces=3, max_depth=1, max_methods=4, max_params=6,
+    return gen.Opts(max_files=2, max_structs=4, max_ifaces=3, max_depth=2, max_methods=4, max_params=6,
                     obj_structs=True, small_obj_structs=False, dup_struct_fields=False, obj_arrays=True,
                     mix_inarr_outobj=False, two_obj_arrays=False, pad_bundles=False, optional=True,
                     typed_objects=True, docs=False, float_consts=False)
